@@ -17,6 +17,7 @@ import (
 	"net/textproto"
 	"strconv"
 	"strings"
+	"sync"
 	"testing"
 	"time"
 
@@ -58,14 +59,25 @@ type upstream struct {
 	expectRSA  bool
 	expectHMAC bool
 	st         *stack
+
+	// fault-injecting upstreams only
+	fault bool
+	adv   *advBackend
+	mu    sync.Mutex
 }
 
 type config struct {
-	stacks []*stack
-	ups    [nKinds]*upstream
+	stacks   []*stack
+	ups      [nKinds]*upstream
+	faultUps []*upstream // rsa+hmac, rsa-only, hmac-only, each in front of a fault-injecting upstream
 }
 
 func (c *config) close() {
+	for _, u := range c.faultUps {
+		if u.adv != nil {
+			u.adv.close()
+		}
+	}
 	for _, s := range c.stacks {
 		if s != nil && s.ps != nil {
 			s.ps.Close()
@@ -125,6 +137,22 @@ func newConfig(rep *vh.Report, seed int64, ci int) (*config, error) {
 	e.spec.HMACKey = "sha256:" + e.secret
 	e.spec.PreserveHost = ci%2 == 0
 	f := mk(kNone)
+	mkFault := func(kind int, hmac bool) *upstream {
+		u := mk(kind)
+		u.fault = true
+		u.host = "fault-" + u.host
+		u.spec.From = u.host
+		u.spec.Service += "f"
+		if hmac {
+			u.secret = word(r, 16)
+			u.spec.HMACKey = "sha256:" + u.secret
+		}
+		u.adv = newAdvBackend()
+		u.spec.To = u.adv.addr()
+		cfg.faultUps = append(cfg.faultUps, u)
+		return u
+	}
+	fa, fb, fe := mkFault(kBoth, true), mkFault(kRSAOnly, false), mkFault(kHMACOnly, true)
 
 	build := func(signer bool, ups ...*upstream) (*stack, error) {
 		var specs []sut.UpstreamSpec
@@ -140,7 +168,11 @@ func newConfig(rep *vh.Report, seed int64, ci int) (*config, error) {
 			u.st = st
 			u.expectRSA = signer && !u.spec.SkipRequestSigning
 			u.expectHMAC = u.spec.HMACKey != "" && !u.spec.SkipRequestSigning
-			cfg.ups[u.kind] = u
+			if u.fault {
+				u.adv.start(ps.Backends[u.spec.Service])
+			} else {
+				cfg.ups[u.kind] = u
+			}
 			// what an upstream does once: fetch the published keys from the proxy under its own host name
 			rs := ps.Client.Do(sut.Req{Host: u.host, Target: "/oauth2/v1/certs"})
 			keys := map[string]*rsa.PublicKey{}
@@ -165,12 +197,13 @@ func newConfig(rep *vh.Report, seed int64, ci int) (*config, error) {
 		}
 		return st, nil
 	}
-	s1, err := build(true, a, b, c, d)
+	s1, err := build(true, a, b, c, d, fa, fb)
 	if err != nil {
+		cfg.close()
 		return nil, err
 	}
 	cfg.stacks = append(cfg.stacks, s1)
-	s2, err := build(false, e, f)
+	s2, err := build(false, e, f, fe)
 	if err != nil {
 		cfg.close()
 		return nil, err
@@ -322,6 +355,11 @@ type kase struct {
 	NCookies  int         `json:"n_cookie_pairs"`
 	ClientSig bool        `json:"client_supplied_signature_headers"`
 	Twin      bool        `json:"twin_without_connection_header,omitempty"`
+	Fault     string      `json:"upstream_connection_fault,omitempty"`
+	Idem      string      `json:"idempotency_header,omitempty"`
+	Attempt   string      `json:"attempt,omitempty"`
+	NHits     int         `json:"upstream_arrivals,omitempty"`
+	Events    []advEvent  `json:"upstream_events,omitempty"`
 
 	Status    int         `json:"status"`
 	Forwarded bool        `json:"forwarded"`
@@ -850,6 +888,10 @@ func (m *monitor) checkHit(i int, k *kase, ax *aux, hit sut.Hit, twin *sut.Hit) 
 	v := viewOf(hit)
 	k.HitURI, k.HitHost, k.HitHeader, k.HitBody, k.HitTE = hit.RequestURI, hit.Host, hit.Header, len(hit.Body), hit.TE
 	r := vh.CaseRNG(m.env.Seed, "c12-tamper", i)
+	sfx := ""
+	if k.Attempt != "" && k.Attempt != "first" {
+		sfx = " attempt=" + k.Attempt
+	}
 
 	rep.Count("forwarded", 1)
 	rep.Count("forwarded_upstream_"+kindNames[up.kind], 1)
@@ -867,7 +909,7 @@ func (m *monitor) checkHit(i int, k *kase, ax *aux, hit sut.Hit, twin *sut.Hit) 
 		transfer = "chunked"
 	}
 	if hit.BodyErr != "" {
-		rep.Violate("c12", i, "body: upstream-could-not-read-the-body transfer="+transfer, "backend body read error: "+hit.BodyErr, k)
+		rep.Violate("c12", i, "body: upstream-could-not-read-the-body transfer="+transfer+sfx, "backend body read error: "+hit.BodyErr, k)
 	}
 	if !bytes.Equal(hit.Body, ax.body) {
 		cls := "same-length-different-bytes"
@@ -879,7 +921,7 @@ func (m *monitor) checkHit(i int, k *kase, ax *aux, hit sut.Hit, twin *sut.Hit) 
 		case len(hit.Body) > len(ax.body):
 			cls = "longer"
 		}
-		rep.Violate("c12", i, "body: upstream-body-differs-from-client-body class="+cls+" transfer="+transfer,
+		rep.Violate("c12", i, "body: upstream-body-differs-from-client-body class="+cls+" transfer="+transfer+sfx,
 			fmt.Sprintf("client sent %d body bytes, upstream received %d", len(ax.body), len(hit.Body)), k)
 	} else {
 		rep.Count("body_intact", 1)
@@ -891,10 +933,10 @@ func (m *monitor) checkHit(i int, k *kase, ax *aux, hit sut.Hit, twin *sut.Hit) 
 	switch {
 	case transfer == "chunked":
 		if len(clh) > 0 || hit.ContentLen != -1 {
-			rep.Violate("c12", i, "framing: chunked-request-with-content-length-at-upstream", fmt.Sprintf("TE=%v Content-Length=%v", hit.TE, clh), k)
+			rep.Violate("c12", i, "framing: chunked-request-with-content-length-at-upstream"+sfx, fmt.Sprintf("TE=%v Content-Length=%v", hit.TE, clh), k)
 		}
 	case len(clh) > 1 || (len(clh) == 1 && clh[0] != strconv.Itoa(len(hit.Body))) || hit.ContentLen != int64(len(hit.Body)):
-		rep.Violate("c12", i, "framing: content-length-incoherent-with-body-at-upstream", fmt.Sprintf("Content-Length=%v parsed=%d body=%d", clh, hit.ContentLen, len(hit.Body)), k)
+		rep.Violate("c12", i, "framing: content-length-incoherent-with-body-at-upstream"+sfx, fmt.Sprintf("Content-Length=%v parsed=%d body=%d", clh, hit.ContentLen, len(hit.Body)), k)
 	}
 	if k.Chunked {
 		rep.Count("chunked_bodies_forwarded", 1)
@@ -935,7 +977,7 @@ func (m *monitor) checkHit(i int, k *kase, ax *aux, hit sut.Hit, twin *sut.Hit) 
 			cause := causeFor(clause, explain(v, hit, ax, twin, okRSA))
 			k.RSA = clause + " cause=" + cause
 			rep.Count("rsa_failed_"+clause, 1)
-			rep.Violate("c12", i, "rsa: "+clause+" cause="+cause,
+			rep.Violate("c12", i, "rsa: "+clause+" cause="+cause+sfx,
 				"the Sso-Signature the upstream received does not verify under /oauth2/v1/certs[kid] over the documented canonical form of what it received", k)
 		} else {
 			k.RSA = "verified"
@@ -999,7 +1041,7 @@ func (m *monitor) checkHit(i int, k *kase, ax *aux, hit sut.Hit, twin *sut.Hit) 
 			cause := causeFor(clause, explain(v, hit, ax, twin, okH))
 			k.HMAC = clause + " cause=" + cause
 			rep.Count("hmac_failed_"+clause, 1)
-			rep.Violate("c12", i, "hmac: "+clause+" cause="+cause,
+			rep.Violate("c12", i, "hmac: "+clause+" cause="+cause+sfx,
 				"hmacauth.AuthenticateRequest over what the upstream received is "+hmacName(res)+", not match", k)
 		} else {
 			k.HMAC = "match"
@@ -1079,6 +1121,10 @@ func (m *monitor) checkHit(i int, k *kase, ax *aux, hit sut.Hit, twin *sut.Hit) 
 
 func (m *monitor) runCase(cfg *config, ci, i int) {
 	rep := m.rep
+	if i%10 == 3 {
+		m.runFaultCase(cfg, ci, i)
+		return
+	}
 	k, rq, ax := buildCase(m.env, cfg, ci, i)
 	ps := ax.up.st.ps
 
@@ -1136,10 +1182,11 @@ func (m *monitor) runCase(cfg *config, ci, i int) {
 func TestProp(t *testing.T) {
 	env := vh.GetEnv()
 	rep := vh.NewReport("C12", "exploration")
-	rep.Rule("cases stride over method(7) x auth(session cookie | skip_auth_regex) x upstream kind(rsa+hmac, rsa-only/preserve_host, rsa+hmac+groups+inject_request_headers, skip_request_signing, hmac-only, none) x body class(11: none/empty/1B/binary/form/64KiB/1MiB/chunked empty,small,64KiB/text) x transport(Go client | hand-written raw request) x Connection class(none/benign/hostile); per case random: state of each covered header (absent/single/two lines/empty/odd spacing/folded/mixed-case name/commas), cookies (session cookie first/middle/last/repeated/two Cookie lines, odd cookies), 18 path classes, 15 query classes, non-canonical Content-Length, client-supplied Sso-Signature/kid/Gap-Signature. distinct = (upstream kind, method, auth, body, transport, path, query, cookie, connection, content-length class) of requests that were forwarded AND whose signature was verified by the monitor")
+	rep.Rule("cases stride over method(7) x auth(session cookie | skip_auth_regex) x upstream kind(rsa+hmac, rsa-only/preserve_host, rsa+hmac+groups+inject_request_headers, skip_request_signing, hmac-only, none) x body class(11: none/empty/1B/binary/form/64KiB/1MiB/chunked empty,small,64KiB/text) x transport(Go client | hand-written raw request) x Connection class(none/benign/hostile); per case random: state of each covered header (absent/single/two lines/empty/odd spacing/folded/mixed-case name/commas), cookies (session cookie first/middle/last/repeated/two Cookie lines, odd cookies), 18 path classes, 15 query classes, non-canonical Content-Length, client-supplied Sso-Signature/kid/Gap-Signature. distinct = (upstream kind, method, auth, body, transport, path, query, cookie, connection, content-length class) of requests that were forwarded AND whose signature was verified by the monitor. Every 10th case is an UPSTREAM CONNECTION FAULT case: method(GET/PUT/DELETE/POST/PATCH) x (no | Idempotency-Key | X-Idempotency-Key) x body(none/sized small,8KiB/chunked small,8KiB,empty) x fault(close after reading the request | close before reading the body | answer with Connection: close then RST | one byte then close | none) x upstream(rsa+hmac, rsa-only, hmac-only) x auth, sent right after a warm-up request so that the proxy re-uses a keep-alive connection to a fault-injecting upstream; the same oracle is applied to every arrival (incl. re-sent requests) the upstream records")
 	rep.Assume("the canonical form is the one documented in the request signer's doc comment (covered headers in the documented order, ','-joined non-empty values, headers without values skipped; PATH(?QUERY); body), with PATH = the decoded path of the request URL as the receiving server parses it")
 	rep.Assume("RSA PKCS#1 v1.5 and HMAC signatures are deterministic, so a twin request without the hostile Connection header shows what the proxy signed")
 	rep.Assume("only bare-host `to` targets are configured (as the property says)")
+	rep.Assume("fault cases: the upstream applies a fault at most once per request id and only on a connection that already served a request; how often net/http re-sends is counted, not judged; the client must get the upstream's answer or an error, never a 2xx the upstream did not give")
 
 	nConfigs := env.Pick(2, 10)
 	perConfig := env.Pick(1000, 5000)
@@ -1186,6 +1233,7 @@ func TestProp(t *testing.T) {
 		"identity_headers_verified": 50, "rsa_verified_auth_session": 50, "rsa_verified_auth_skip-auth": 50,
 		"rsa_uncovered_change_still_verifies": 100, "hmac_uncovered_change_still_verifies": 100,
 		"certs_fetched_keys": 1,
+		"faulted-on-reused-connection": 30, "replays_observed": 10, "replayed_hits_checked": 10,
 	}
 	for _, mth := range methods {
 		floors["rsa_verified_"+mth] = 10
